@@ -65,6 +65,11 @@ func (m *C09) OnStep(w *ops.World, st *ops.Step) {
 	if st.Kind == "begin_block" || st.Kind == "end_block" {
 		return
 	}
+	if st.Via == "keeper" && st.Panic != "" {
+		// see mon/c01.go: a panicking keeper call of the harness has no production counterpart that keeps partial writes
+		m.S.Eval("keeper-step-panic-not-judged")
+		return
+	}
 	m.S.Eval("failed-step-leaves-no-trace")
 	cls := failClass(st)
 	m.S.Case(entry(st) + "|" + cls)
